@@ -573,3 +573,145 @@ def rule_frontiers(ctx, rep, config="c-lib"):
                       "state ever starts at the end marker, and an input whose only repair is to ignore everything up to the end finds no recovery (best_state is used "
                       "unset: start and stop are -1)" % ({"slt": "<", "sle": "<=", "sge": ">=", "sgt": ">"}.get(pr, pr), bl), where=cc.where(), witness=[cc.where(), c.where()])
     rep.floor("R16-frontiers", "frontier obligations", n, 3)
+
+
+def rule_acceptance_at_end(ctx, rep, config="c-lib"):
+    rep.rule("R16-accept", "error_recovery accepts a recovery alternative when enough tokens were matched or when ALL tokens were consumed, the end marker included: the "
+                           "second way into the block that compares the cost with the best one is the test  tok_curr >= toks_len  (as a linear form: tok_curr - toks_len "
+                           ">= 0, no slack) -- with a smaller bound an alternative that stopped in front of an end marker it cannot shift is accepted, the parser list "
+                           "ends without the accepting situation and yaep_parse returns 0 with a NULL tree")
+    from .c10 import _norm
+    from ..model import strip_int_casts
+    p = ctx.prog(config)
+    f = p.fn("error_recovery")
+    rep.cover(p, [f.name])
+    heads = []
+    for c in f.all_insts():
+        if c.op != "icmp" or c.d["pred"] not in ("sgt", "slt", "sge", "sle"):
+            continue
+        vs = [f.inst(strip_int_casts(f, o)) for o in c.ops]
+        names = [(v.d.get("var") if v is not None else None) for v in vs]
+        if "best_cost" in names and "cost" in names and any(u.op == "br" for u in f.uses().get(c.id, [])):
+            # the one followed by the store of the best state
+            if any(x.is_call() and x.callee == "new_recovery_state" for bn in f.reachable_from(c.block.name) for x in f.bmap[bn].insts):
+                heads.append(c)
+    heads = [c for c in heads if any(f.dominates(c.block.name, x.block.name) for x in f.calls() if x.callee == "new_recovery_state")]
+    if not heads:
+        raise AnalysisBroken("R16-accept: the comparison of the cost of an accepted alternative with the best cost was not found")
+    H = heads[-1].block.name
+    found = []
+    for b in f.rblocks():
+        if H not in b.succs:
+            continue
+        t = b.term
+        if t is None or t.op != "br" or len(t.ops) != 3:
+            continue
+        c = f.inst(t.ops[0])
+        if c is None or c.op != "icmp":
+            continue
+        pol = (t.ops[2]["v"] == H)
+        txt = _norm(f, c, pol)
+        if txt and "toks_len" in txt:
+            found.append((c, txt))
+    if not found:
+        raise AnalysisBroken("R16-accept: no test of the token position against toks_len leads into the acceptance block")
+    for (c, txt) in found:
+        key = "error_recovery/accepted-when-all-tokens-consumed"
+        if txt.replace(" ", "") in ("L[@tok_curr]+-1*L[@toks_len]>=0",):
+            rep.ok("R16-accept", key, sample={"test": c.where(), "form": txt})
+        else:
+            rep.violation("R16-accept", key, "the alternative is accepted under `%s', not under tok_curr - toks_len >= 0: an alternative that has matched too few tokens and "
+                          "stopped before the end marker counts as a recovery -- the parse then ends on a set without the accepting situation (0 returned, NULL tree)" % txt,
+                          where=c.where(), witness=[c.where()])
+
+
+def rule_push_costs(ctx, rep, config="c-lib"):
+    rep.rule("R16-push-cost", "a recovery state that continues the state being tried (it is pushed with that state's back_toks) carries the cost accumulated so far -- the "
+                              "running `cost', which counts the tokens skipped forward as well -- never the cost the state was popped with (the tokens already skipped would "
+                              "be forgotten: fewer tokens are reported ignored than the tree shows replaced)")
+    from ..model import strip_int_casts
+    p = ctx.prog(config)
+    f = p.fn("error_recovery")
+    rep.cover(p, [f.name])
+    n = 0
+    for c in f.calls():
+        if c.callee != "push_recovery_state" or len(c.args) < 3:
+            continue
+        bt = loaded_from(f, c.args[2])
+        if bt is None or bt.last_field() != "recovery_state.back_toks":
+            continue
+        n += 1
+        key = "error_recovery/continuing-state-cost#%d" % n
+        v = f.inst(strip_int_casts(f, c.args[1]))
+        while v is not None and v.op == "add" and const_int(v.ops[1]) is not None:
+            v = f.inst(strip_int_casts(f, v.ops[0]))
+        lp = None
+        if v is not None and v.op == "load":
+            lp = resolve_addr(f, v.ops[0]).last_field()
+        # the running cost: the loop-carried value that starts as the popped cost and is incremented for every token skipped
+        incs, inits = [], []
+        for ph in f.all_insts():
+            if ph.op != "phi":
+                continue
+            vals = [f.inst(strip_int_casts(f, x)) for (x, _) in ph.d["incoming"]]
+            il = [x for x in vals if x is not None and x.op == "load" and resolve_addr(f, x.ops[0]).last_field() == "recovery_state.backward_move_cost"]
+            if il:
+                inits += il
+                incs += [x for x in vals if x is not None and x.op == "add" and strip_int_casts(f, x.ops[0]).get("v") == ph.id]
+        from .r14 import path_exists
+        # the push can be reached from an increment of the running cost without the cost being re-initialised from the next popped state
+        after_skip = any(path_exists(f, x, c, inits) for x in incs)
+        if lp == "recovery_state.backward_move_cost" and after_skip:
+            rep.violation("R16-push-cost", key, "the state is pushed with the cost its predecessor was popped with (state.backward_move_cost), not with the running cost: the "
+                          "tokens the predecessor skipped forward before this point are not counted -- syntax_error reports fewer ignored tokens than were replaced",
+                          where=c.where(), witness=[c.where()])
+        else:
+            rep.ok("R16-push-cost", key, sample={"push": c.where()})
+    rep.floor("R16-push-cost", "pushes of continuing recovery states", n, 2)
+
+
+def rule_hop_cost(ctx, rep, config="c-lib"):
+    rep.rule("R16-hop", "find_error_pl_set (s, &cost) counts the tokens of the sets it walks over, from s down to the set it returns (exclusive).  When the back frontier "
+                        "moves on from an old frontier F the walk starts at F - 1 (F itself would be found again), so the token whose shift gave pl[F] must be "
+                        "counted by the caller: a call with start `F - 1' is followed by an increment of the same cost variable under "
+                        "pl[F]->core->term != term_error -- otherwise every hop of the frontier forgets one token, fewer tokens are reported ignored than were replaced")
+    from ..model import strip_int_casts
+    from .r5 import _controlling_conditions
+    from .r14 import path_exists
+    p = ctx.prog(config)
+    f = p.fn("error_recovery")
+    rep.cover(p, [f.name])
+    n = 0
+    for c in f.calls():
+        if c.callee != "find_error_pl_set":
+            continue
+        a0 = expr.lin(f, c.args[0], 0, 0)
+        if not (a0.c == -1 and len(a0.t) == 1 and list(a0.t.values()) == [1]):
+            continue        # the first search starts at the current set itself
+        n += 1
+        key = "error_recovery/hop-counts-the-old-frontier#%d" % n
+        out = resolve_addr(f, c.args[1])
+        comp = None
+        for s_ in f.all_insts():
+            if s_.op != "store" or resolve_addr(f, s_.ops[1]).root != out.root:
+                continue
+            v = f.inst(strip_int_casts(f, s_.ops[0]))
+            if v is None or v.op != "add" or const_int(v.ops[1]) != 1:
+                continue
+            l_ = f.inst(strip_int_casts(f, v.ops[0]))
+            if l_ is None or l_.op != "load" or resolve_addr(f, l_.ops[0]).root != out.root:
+                continue
+            if not path_exists(f, c, s_, []):
+                continue
+            for (cc, pol) in _controlling_conditions(f, s_.block.name):
+                a, b = loaded_from(f, cc.ops[0]), loaded_from(f, cc.ops[1])
+                flds = set([(a.last_field() if a is not None else None), (b.last_field() if b is not None else None)])
+                if flds == set(["set_core.term", "grammar.term_error"]) and (cc.d["pred"] == "ne") == pol:
+                    comp = s_
+        if comp is not None:
+            rep.ok("R16-hop", key, sample={"walk": c.where(), "old_frontier_counted_at": comp.where()})
+        else:
+            rep.violation("R16-hop", key, "the backward walk of a further hop starts one set below the old frontier and the token of the old frontier's own set is not "
+                          "counted: back_to_frontier_move_cost is one too small per hop -- the first ignored token reported to syntax_error is too large and fewer "
+                          "tokens are reported ignored than the tree shows replaced by `error'", where=c.where(), witness=[c.where()])
+    rep.floor("R16-hop", "hops of the back frontier", n, 1)
